@@ -288,24 +288,46 @@ def run(model, col, tier):
 
     cpv = model.cls("nsl/passes/AddImplicitCasts.py", "AddImplicitCastVisitor").own_method("v_ConstructPrimitiveExpression")
     cenv = _lenv(cpv)
-    casts = [n for n in ast.walk(cpv) if isinstance(n, ast.If) and any(isinstance(c, ast.Call) and last_attr(c) == "CastExpression" for s in n.body for c in ast.walk(s))]
+    nodep_ = cpv.args.args[1].arg
     okc = False
     ctext = None
-    if casts:
-        t_ = _rtext(casts[0].test, cenv).replace(" ", "")
-        ctext = _rtext(casts[0].test, cenv)
-        okc = t_ in ("p.GetType().GetComponentType()!=node.GetType().GetComponentType()", "node.GetType().GetComponentType()!=p.GetType().GetComponentType()")
-        keeps = any("arguments.append(p)" in unparse(s) for s in casts[0].orelse)
-        okc = okc and keeps
+    lst_name = None
+    tv_ = "p"
+    for lp_ in [n for n in ast.walk(cpv) if isinstance(n, ast.For) and ("GetArguments" in unparse(n.iter) or f"{nodep_}.children" in unparse(n.iter) or unparse(n.iter) == nodep_)]:
+        tv_ = unparse(lp_.target)
+        eq_keys = (f"{tv_}.GetType().GetComponentType() == {nodep_}.GetType().GetComponentType()", f"{nodep_}.GetType().GetComponentType() == {tv_}.GetType().GetComponentType()")
+        okc = True
+        seen_cast = seen_keep = False
+        for evs_, st_ in paths(lp_.body, loop_iters=(1,)):
+            atoms_ = cond_atoms(evs_, cenv)
+            eq_ = next((atoms_[k] for k in eq_keys if k in atoms_), None)
+            for c_ in calls_on_path(evs_):
+                if last_attr(c_) == "append" and c_.args and isinstance(c_.func, ast.Attribute):
+                    lst_name = unparse(c_.func.value)
+                    a_ = c_.args[0]
+                    a_r = a_
+                    if isinstance(a_, ast.Name) and a_.id in cenv:
+                        a_r = cenv[a_.id]
+                    if isinstance(a_r, ast.Call) and last_attr(a_r) == "CastExpression":
+                        seen_cast = True
+                        if eq_ is not False:
+                            okc, ctext = False, f"a cast is inserted although the component types were not found different (path conditions {[(k, v) for k, v in atoms_.items()][:3]})"
+                    elif unparse(a_r) == tv_:
+                        seen_keep = True
+                        if eq_ is not True:
+                            okc, ctext = False, f"an argument is kept unconverted although its component type was not found equal to the result's (path conditions {[(k, v) for k, v in atoms_.items()][:3]})"
+        okc = okc and seen_cast and seen_keep
+        if not (seen_cast and seen_keep) and ctext is None:
+            ctext = f"cast inserted: {seen_cast}, unconverted kept: {seen_keep}"
     col.check(okc, "R04.7", "nsl/passes/AddImplicitCasts.py::v_ConstructPrimitiveExpression cast condition",
               "an argument is cast exactly when its component type differs from the result's component type (scalars and vectors alike)",
-              f"the cast of a constructor argument is guarded by `{ctext}`: arguments whose component type differs from the result's are not all converted "
+              f"{ctext}: arguments whose component type differs from the result's are not all converted "
               "(an int vector built from a float sub-vector keeps float components)", "nsl/passes/AddImplicitCasts.py", cpv)
     tgt = [c for c in ast.walk(cpv) if isinstance(c, ast.Call) and last_attr(c) == "_GetTargetType"]
-    col.check(bool(tgt) and _rtext(tgt[0].args[0], cenv) == "p.GetType()" and _rtext(tgt[0].args[1], cenv) == "node.GetType().GetComponentType()", "R04.7",
+    col.check(bool(tgt) and _rtext(tgt[0].args[0], cenv) == f"{tv_}.GetType()" and _rtext(tgt[0].args[1], cenv) == f"{nodep_}.GetType().GetComponentType()", "R04.7",
               "nsl/passes/AddImplicitCasts.py::v_ConstructPrimitiveExpression cast target", "target = the argument's shape with the result's component type", None, "nsl/passes/AddImplicitCasts.py", cpv)
     setargs = [c for c in ast.walk(cpv) if isinstance(c, ast.Call) and last_attr(c) == "SetArguments"]
-    col.check(bool(setargs) and unparse(setargs[0].args[0]) == "arguments", "R04.7", "nsl/passes/AddImplicitCasts.py::v_ConstructPrimitiveExpression installs the converted arguments", "node.SetArguments(arguments)", None, "nsl/passes/AddImplicitCasts.py", cpv)
+    col.check(bool(setargs) and lst_name is not None and unparse(setargs[0].args[0]) == lst_name, "R04.7", "nsl/passes/AddImplicitCasts.py::v_ConstructPrimitiveExpression installs the converted arguments", "node.SetArguments(arguments)", None, "nsl/passes/AddImplicitCasts.py", cpv)
     # ---------------- R04.9 component-type promotion of vector/matrix operands (= R09.2/R09.3) --------
     from . import c09
 
